@@ -9,3 +9,21 @@
 (declare-fun rvType (Int) Int)
 ; ToInt of an Int-kind constant is itself; ToInt yields kind Int exactly when the value is an integer
 (assert (forall ((c Int)) (! (=> (= (constKind c) 3) (= (constToInt c) c)) :pattern ((constToInt c)))))
+; float / complex / bool / string views (go/constant's own single roundings)
+(declare-fun constF32 (Int) Int)        ; constant.Float32Val: the exact value rounded once to float32
+(declare-fun constF64 (Int) Int)        ; constant.Float64Val
+(declare-fun constToFloat (Int) Int)
+(declare-fun constToComplex (Int) Int)
+(declare-fun constReal (Int) Int)
+(declare-fun constImag (Int) Int)
+(declare-fun constBoolVal (Int) Bool)
+(declare-fun constStringVal (Int) String)
+(declare-fun ccomplex (Int Int) Int)   ; complex(r, i) of two float values
+; the dynamic type test x.(constant.Value) on an interface value (as the engine names it)
+(declare-fun assertok_go_constant_Value (Int) Bool)
+(declare-fun assert_go_constant_Value (Int) Int)
+; go/constant: Real and ToFloat are the identity on Int and Float values; a float32 value is a fixed
+; point of rounding to float32
+(assert (forall ((c Int)) (! (=> (or (= (constKind c) 3) (= (constKind c) 4)) (= (constReal c) c)) :pattern ((constReal c)))))
+(assert (forall ((c Int)) (! (=> (= (constKind c) 4) (= (constToFloat c) c)) :pattern ((constToFloat c)))))
+(assert (forall ((c Int)) (! (= (constKind (constToFloat c)) (ite (or (= (constKind c) 3) (= (constKind c) 4)) 4 (constKind (constToFloat c)))) :pattern ((constToFloat c)))))
